@@ -1,7 +1,7 @@
 (* C20 — the discipline instantiated at the table regenerated from the Go source
    (Gen/LockSet.v).  Everything here is re-checked by vm_compute on every run. *)
 From Coq Require Import String List NArith Bool.
-From SeataV Require Import Conc.LockSet Conc.LockSetProofs Conc.LockSetListing Conc.Accounting Conc.AccountingProofs Conc.Reent Conc.ReentProofs.
+From SeataV Require Import Conc.LockSet Conc.LockSetProofs Conc.LockSetListing Conc.Accounting Conc.AccountingProofs Conc.Reent Conc.ReentProofs Conc.Order Conc.OrderProofs.
 From SeataV Require Gen.LockSet.
 Import ListNotations.
 Open Scope string_scope.
@@ -109,3 +109,30 @@ Lemma reent_table_nonvacuous :
   negb (Nat.eqb (length ls_held_calls) 0)
   && existsb (fun r => negb (Nat.eqb (length (f_may r)) 0)) ls_funcs = true.
 Proof. vm_compute. reflexivity. Qed.
+
+(* wait-for graph: acyclic at the tables regenerated from the source *)
+Definition ls_order_edges := SeataV.Gen.LockSet.ls_order_edges.
+Definition ls_order_rank := SeataV.Gen.LockSet.ls_order_rank.
+
+Lemma order_table_check : order_check ls_order_edges ls_order_rank = true.
+Proof. vm_compute. reflexivity. Qed.
+
+Theorem order_acyclic_at_table : forall a, ~ WaitsFor ls_order_edges a a.
+Proof. exact (order_check_sound ls_order_edges ls_order_rank order_table_check). Qed.
+
+Lemma order_table_nonvacuous :
+  existsb (fun e => (e_from e =? "pool:sql.DB")%string) ls_order_edges = true.
+Proof. vm_compute. reflexivity. Qed.
+
+(* sync.Pool values: no use after Put in any function of the client *)
+Definition ls_pool_traces := SeataV.Gen.LockSet.ls_pool_traces.
+
+Lemma pool_table_check : forallb (fun t => pool_ok (snd t)) ls_pool_traces = true.
+Proof. vm_compute. reflexivity. Qed.
+
+Theorem pool_discipline_at_table : forall f p tr, In (f, p, tr) ls_pool_traces ->
+  forall l1 w l2, tr = (l1 ++ PUse w :: l2)%list -> sin w (p_dead (prun pst0 l1)) = false.
+Proof.
+  intros f p tr Hin. pose proof pool_table_check as H. rewrite forallb_forall in H.
+  specialize (H _ Hin). simpl in H. exact (pool_ok_sound tr H).
+Qed.
